@@ -274,10 +274,7 @@ def run_replay(ctx):
                                             observed=[text(o) for o in r["obs"]], observed_bytes=r["obs"],
                                             expected_bytes=p.get("expected_bytes"), tlc_verdict=v, replay_of=ctx.replay),
                                   signature=p.get("signature", "replay"), finding_ids=[FINDING] if known else [])
-    cov = new_cov()
-    cov.update(states=1, transitions=1, traces_validated_against_impl=sum(len(r["m"]) for r in runs), exhaustive=False,
-               samples=[dict(input=text(keys), observed=[[text(o) for o in r["obs"]] for r in runs])], replay_of=ctx.replay)
-    vlib.write_evidence(ctx, "model_checking", cov, assumptions=ASSUMPTIONS)
+    # a replay does not rewrite the tier's evidence file
 
 
 ASSUMPTIONS = [
